@@ -25,22 +25,22 @@ open Octo
 /-! ### `octosql.Null.Is(t)` -/
 
 /-- `TypeRelation` as its iota value: 0 = Isnt, 1 = Maybe, 2 = Is -/
-abbrev Rel := Nat
-def Rel.isnt : Rel := 0
-def Rel.maybe : Rel := 1
-def Rel.is : Rel := 2
+abbrev Rel := Nat  -- (definitions below are stated over `Nat` directly so that `omega` sees them)
+abbrev Rel.isnt : Nat := 0
+abbrev Rel.maybe : Nat := 1
+abbrev Rel.is : Nat := 2
 
 mutual
 /-- `octosql.Null.Is(other)` (`Type.Is` with the receiver fixed to the primitive type NULL):
     `other == Any` ⇒ Is; the receiver is not a union; `other` a union ⇒ the maximum over its alternatives;
     the receiver is not a list/struct/tuple; finally `t.TypeID == other.TypeID`. -/
-def nullRel : Ty → Rel
+def nullRel : Ty → Nat
   | .any => Rel.is
   | .union alts => nullRelMax Rel.isnt alts
   | .null => Rel.is
   | _ => Rel.isnt
 /-- the loop `out := Isnt; for alt { rel := t.Is(alt); if rel > out { out = rel } }` -/
-def nullRelMax (out : Rel) : List Ty → Rel
+def nullRelMax (out : Nat) : List Ty → Nat
   | [] => out
   | t :: ts => nullRelMax (if nullRel t > out then nullRel t else out) ts
 end
@@ -110,15 +110,17 @@ def nullCheck (argValues : List Value) : List Nat → Option Res
     | none => some .panic
     | some v => if isNull v then some (.val .null) else nullCheck argValues rest
 
+/-- `value, err := c.function(argValues); if err != nil { return ZeroValue, fmt.Errorf("couldn't evaluate function: %w", err) }` -/
+def wrapBody : Res → Res
+  | .val v => .val v
+  | .err e => .err (e.wrap .fnBody)
+  | .panic => .panic
+
 /-- the part of `FunctionCall.Evaluate` after all arguments have been evaluated -/
 def applyFn (fn : List Value → Res) (nullChecks : List Nat) (argValues : List Value) : Res :=
   match nullCheck argValues nullChecks with
   | some r => r
-  | none =>
-    match fn argValues with
-    | .val v => .val v
-    | .err e => .err (e.wrap .fnBody)
-    | .panic => .panic
+  | none => wrapBody (fn argValues)
 
 /-- the argument loop of `FunctionCall.Evaluate` over already known argument outcomes
     (evaluation is pure, so evaluating lazily and mapping first agree — `evalArgs_eq`) -/
